@@ -465,3 +465,82 @@ def c02(tier, rep):
     rep.set("wrapper_operator_kind_pairs", len(stats["wrappers"]))
     rep.set("rule", "each of the ten wrapper-capable operators on every kind it types on (25 operator x kind pairs) x every inner chain of length <= 2 (incl. empty, nested wrappers up to depth %d, a block capture as first inner operand) x closing modes {explicit <<<, <<< + outer operator, <<< + ~outer operator, open to branch end, open to step end + ~operator, ~wrapper open, ~wrapper closed} x {join!, try_join!}, as two-branch programs whose second branch has captures in both steps; value and FULL trace against the reference `.x(|v| v inner) rest`; non-trivial = trace non-empty and >= 2 outcomes" % (2 if tier == "quick" else 3))
     sample_family(rep, progs, fr)
+
+
+@check("C11", "exploration")
+def c11(tier, rep):
+    from . import fam_captures as fc, fam_profiles as fp, fam_wrappers
+
+    progs, ops = fc.chain_programs(tier)
+    fr = e2.run_family("c11chains", progs)
+    judge_family(rep, fr)
+    pp = fc.profile_programs(tier)
+    fr2 = e2.run_family("c11profiles", pp, extra_header=fp.HEADER)
+    judge_family(rep, fr2)
+    wp, _ = fam_wrappers.programs(tier)
+    wp = [p for p in wp if "cap/" in p.id]
+    fr3 = e2.run_family("c11wrappers", wp)
+    judge_family(rep, fr3)
+    rep.set("operators_with_captured_operands", sorted(ops))
+    rep.set("rule", "(a) every typed chain of length <= 2 whose expression operands (both operands of fold/try_fold) and initial value are ALL written as block captures, with ~ before none / the last / every operator, in 2- and 3-branch join! programs next to capture-dense Result branches (a distinct-constant capture on every action, Process and Err arms, mirrored (branch, action) positions); (b) depth profiles n<=3,d<=3 with a capture in every step of every branch in all 8 macro kinds; (c) captures inside wrappers (C02 family); oracle: value and trace equal the reference, which evaluates every capture once, after the previous step, before any branch expression of its step, in branch-then-position order")
+    sample_family(rep, progs, fr)
+
+
+@check("C12", "exploration")
+def c12(tier, rep):
+    from . import fam_profiles as fp
+    import itertools
+
+    progs = []
+    dmax = 3
+    for ds in fp.profiles(3, dmax):
+        if max(ds) < 2:
+            continue
+        n = len(ds)
+        readers = [(b, k) for b in range(n) for k in range(1, ds[b])]
+        subsets = [s for r in range(1, n + 1) for s in itertools.combinations(range(n), r)]
+        for mac in KINDS8:
+            if "async" in mac and tier == "quick" and (sum(ds) > 6 or n == 3 and len(set(ds)) == 1):
+                continue
+            for sub in subsets:
+                if tier == "quick" and "spawn" in mac and len(sub) == 2 and n == 3:
+                    continue
+                for fl in (("Res", "Opt") if mac.startswith("try") and "async" not in mac else ("Res",)):
+                    if fl == "Opt" and (tier == "quick" and len(sub) != n):
+                        continue
+                    lets = [(b, (b + len(sub)) % 2 == 1) for b in sub]
+                    p = fp.build(mac, ds, flavour=fl if mac.startswith("try") else None, lets=lets, readers=readers)
+                    progs.append(fp.to_prog("%s/%s/%s/%s" % (mac, fl, fp.pname(ds), "".join(map(str, sub))), p, fp.offset_rows()))
+    fr = e2.run_family("c12", progs, extra_header=fp.HEADER)
+    judge_family(rep, fr)
+    rep.set("rule", "depth profiles n<=3,d<=3 (some branch with >= 2 steps) x EVERY non-empty subset of named branches (let / let mut alternating) x 8 macro kinds; EVERY capture of every (branch, step>=1) snapshots ALL visible names; oracle: the macro result equals the reference's (which is the result without let) and every snapshot equals the reference's 'latest completed step value of the named branch, still wrapped in try macros', also after that branch finished")
+    sample_family(rep, progs, fr)
+
+
+@check("C13", "exploration")
+def c13(tier, rep):
+    from . import e1, fam_profiles as fp
+
+    progs = []
+    for ds in fp.profiles(3, 2):
+        n = len(ds)
+        positions = sorted({0, n // 2, n})
+        for mac in KINDS8 + ["spawn", "try_spawn", "async_spawn", "try_async_spawn"]:
+            is_try = mac.startswith("try")
+            alias = mac in ("spawn", "try_spawn", "async_spawn", "try_async_spawn")
+            for hk in (("map", "and_then") if is_try else ("then",)):
+                for hpos in positions if not alias else [n]:
+                    for fl in (("Res", "Opt") if is_try and "async" not in mac else ("Res",)):
+                        if fl == "Opt" and hpos != n:
+                            continue
+                        p = fp.build(mac, ds, flavour=fl if is_try else None, handler=hk, hpos=hpos, rich=(n <= 2))
+                        sub = fp.fail_slots(ds) if is_try else ()
+                        rows = [[0]] if is_try else fp.offset_rows()
+                        progs.append(fp.to_prog("%s/%s/%s/%s@%d" % (mac, fl, fp.pname(ds), hk, hpos), p, rows, sub=sub))
+    fr = e2.run_family("c13", progs, extra_header=fp.HEADER)
+    judge_family(rep, fr)
+    exe = e1.build()
+    d = e1_mode(rep, exe, ["opts", "handlers"], "C13", "handler legality")
+    rep.set("legality_inputs", d["inputs"] if d else 0)
+    rep.set("rule", "E2: depth profiles n<=3,d<=2 x 12 macros x {map, and_then | then} x handler written first / in the middle / last x EVERY failure subset (try) : handler event count, argument order, result wrapping vs the reference (handler called exactly once iff every branch succeeded; then: always); async then/and_then handlers return futures (awaited; the gated variants run under all wake-up orders in C09's set); E1: 8 configs x 3 handler kinds x 1-3 branches x every position x optional second handler at every position: rejection iff wrong kind or second handler")
+    sample_family(rep, progs, fr)
